@@ -331,6 +331,11 @@ def describe(hci, infos_by, p):
         if info is None or type(p) is not info.pycls:
             return ['?', type(p).__name__]
         return ['PLeMeta', p.subevent_code, True, canon_obj(info.fields, p)]
+    if isinstance(p, H.HCI_Extended_Event):       # a vendor sub-event class produced by a vendor factory
+        info = infos_by.get((T.KIND_VENDOR, p.subevent_code))
+        if info is None or type(p) is not info.pycls:
+            return ['?', type(p).__name__]
+        return ['PVendorSub', p.subevent_code, canon_obj(info.fields, p)]
     if isinstance(p, H.HCI_Command_Complete_Event):
         rp = p.return_parameters
         rinfo = infos_by.get(('ret', type(rp).__name__))
@@ -369,6 +374,10 @@ def describe_model(t):
         return [c, t[1], t[2], [from_coq_value(v) for v in t[3]]]
     if c == 'PCmdComplete':
         return [c, [from_coq_value(v) for v in t[1]], t[2][1], [from_coq_value(v) for v in t[3]]]
+    if c == 'PCmdCompleteCustom':
+        return [c]
+    if c == 'PVendorSub':
+        return [c, t[1], [from_coq_value(v) for v in t[2]]]
     if c == 'PAcl':
         return [c, t[1], t[2], t[3], t[4], bytes(t[5])]
     if c == 'PSco':
@@ -521,11 +530,14 @@ def run(ctx):
                 '0/1/n-1/n, arrays of 0/1/2/many items); each built and serialised by the real class and by '
                 'the model, parsed back by HCI_Packet.from_bytes and by the model, plus 3 mutated byte strings '
                 '(truncate / extend / length byte / byte flips) and one out-of-range value list; ACL/SCO/ISO '
-                'headers over boundary bit-field values; unknown opcodes / event codes / sub-event codes. A case '
+                'headers over boundary bit-field values; a complete sweep of all 256 event codes, all 256 LE sub-event '
+                'codes, all 256 vendor sub-event codes and a boundary set of unregistered opcodes with payload lengths '
+                '0/1/7/120/255, with every module that registers HCI classes imported. A case '
                 'is non-trivial when the class has at least one field; distinct by (class, values).'
                 % ctx.n(6, 200))
     ctx.assumptions += [
-        'HCI_Event.vendor_factories is empty (bumble.hci registers none; vendor modules are out of scope)',
+        'every module under bumble/ that uses a registration decorator or adds a vendor factory is imported '
+        '(found by scanning the sources); registrations made elsewhere at run time are not seen',
         'values are well-typed for their field (ints for integer fields, bytes for byte fields, Address for addresses)',
     ]
     ctx.trusted += [
@@ -540,7 +552,10 @@ def run(ctx):
             infos_by[('ret', i.name)] = i
         else:
             infos_by[(i.kind, i.code)] = i
+    ctx.extra['modules_imported'] = list(T.EXTRA.get('modules', []))
+    ctx.extra['vendor_factories'] = [[sub, ids] for sub, ids in T.EXTRA.get('rules', [])]
     ctx.extra['classes'] = {'commands': sum(1 for i in infos if i.kind == 0), 'events': sum(1 for i in infos if i.kind == 1),
+                            'vendor_subevents': sum(1 for i in infos if i.kind == 4),
                             'le_subevents': sum(1 for i in infos if i.kind == 2),
                             'return_parameter_classes': sum(1 for i in infos if i.kind == 3),
                             'custom': [i.name for i in infos if i.custom]}
@@ -576,6 +591,8 @@ def run(ctx):
             continue        # Command Complete is exercised through every return-parameters class
         for k in range(K):
             vals = gen_fields(rng, hci, info.fields)
+            if info.selector:
+                vals[0] = rng.choice(info.selector)     # the id the vendor factory selects on
             if info.kind == T.KIND_RETURN:
                 if info.status_first and info.fields and k != 1:
                     vals[0] = 0                 # SUCCESS: the other fields are parsed
@@ -630,7 +647,7 @@ def run(ctx):
             ib = bytes(wrap(obj) if wrap else obj)
         except Exception:
             ib = None
-        ctx.count('class-cases.' + ['command', 'event', 'le-subevent', 'return-parameters'][info.kind])
+        ctx.count('class-cases.' + ['command', 'event', 'le-subevent', 'return-parameters', 'vendor-subevent'][info.kind])
         ctx.count('values.out-of-range' if tag == 'bad' else 'values.in-range')
         ser_checks.append((info, vals, tag, e, ib))
         if tag == 'bad':
@@ -661,8 +678,9 @@ def run(ctx):
     todo.append(('data', None, b'', add2(b''), False))
     for b, wf in gen_data_packets(rng, hci, ctx.n(150, 6000)):
         todo.append(('data', None, b, add2(b), wf))
-    for b in gen_unknown(rng, hci, infos, ctx.n(60, 2000)):
-        todo.append(('unknown', None, b, add2(b), True))
+    sweep = gen_sweep(rng, infos, ctx.n(1, 4))
+    for kind, code, known, b in sweep:
+        todo.append(('sweep', (kind, code, known), b, add2(b), False))
 
     ctx.log('implementation side done; evaluating the model')
     allres = ctx.coq_eval(REQUIRES, exprs + exprs2, preamble=PREAMBLE, shard=_shard(len(exprs) + len(exprs2)))
@@ -678,7 +696,10 @@ def run(ctx):
         p = impl_parse(hci, b)
         ctx.count('parse.' + name)
         ctx.count('parse.accepted' if p is not None else 'parse.rejected')
-        if name in ('data', 'unknown', 'bytes'):
+        if name == 'sweep':
+            skind, scode, sknown = info
+            info = None
+        if name in ('data', 'sweep', 'bytes'):
             ctx.case((name, b), True, {'kind': name, 'bytes': b.hex()} if e % 97 == 0 else None)
         try:
             idesc = describe(hci, infos_by, p)
@@ -690,7 +711,7 @@ def run(ctx):
             mdesc = describe_model(m[1][0])
             mbytes = opt_bytes(m[1][1])
         ibytes = impl_bytes(p) if p is not None else None
-        custom = mdesc is not None and mdesc[0] == 'PCustomClass'
+        custom = mdesc is not None and mdesc[0] in ('PCustomClass', 'PCmdCompleteCustom')
         if custom:
             pass        # layout of the hand-written classes is not modelled
         elif idesc != mdesc or ibytes != mbytes:
@@ -707,10 +728,12 @@ def run(ctx):
                 ctx.violation(f'{_sig(info, b)}.rebytes',
                               f'bytes(from_bytes(b)) = {ibytes.hex() if ibytes is not None else None} != b = {b.hex()}',
                               {'kind': 'bytes', 'hex': b.hex()})
-            elif name == 'unknown':
-                bad = unknown_oracle(hci, p, b)
-                if bad:
-                    ctx.violation(f'unknown.{b[:2].hex()}', bad, {'kind': 'bytes', 'hex': b.hex()})
+        if name == 'sweep':
+            ctx.count('sweep.' + skind + ('.registered' if sknown else '.unregistered'))
+            bad = sweep_oracle(hci, skind, scode, sknown, p, b)
+            if bad:
+                ctx.violation(f'sweep.{skind}.{scode:#x}', bad, {'kind': 'sweep', 'hex': b.hex(), 'code_kind': skind,
+                                                                'code': scode, 'registered': sknown})
 
     # ---- hand-written classes: oracle only
     for info in infos:
@@ -784,6 +807,108 @@ def unknown_oracle(hci, p, b):
     else:
         if type(p) is not hci.HCI_CustomPacket or p.payload != b:
             return f'packet of unknown type {b.hex()} is not carried as HCI_CustomPacket'
+    return None
+
+
+SWEEP_LENGTHS = [0, 1, 7, 120, 255]
+
+
+def registered_codes(infos):
+    """codes that have a class of the RIGHT kind in the dispatcher's registry (a class sitting
+    in a registry whose event code it does not write is not a class for that code)"""
+    ev = {i.code for i in infos if i.kind == T.KIND_EVENT and i.event == i.code}
+    le = {i.code for i in infos if i.kind == T.KIND_LE_EVENT and i.event == 0x3E}
+    ops = {i.code for i in infos if i.kind == T.KIND_COMMAND}
+    return ev, le, ops
+
+
+def gen_sweep(rng, infos, reps):
+    """(kind, code, registered?, packet) over ALL 256 event codes, ALL 256 LE sub-event codes, ALL
+    256 vendor sub-event codes and a boundary set of unregistered opcodes, payload lengths
+    0, 1, 7, 120, 255."""
+    ev, le, ops = registered_codes(infos)
+    rules = T.EXTRA.get('rules', [])
+    out = []
+    for _ in range(reps):
+        for code in range(256):
+            if code in (0x3E, 0xFF):
+                continue
+            for n in SWEEP_LENGTHS:
+                params = rng.bytes(n)
+                out.append(('event', code, code in ev, bytes([4, code, len(params)]) + params))
+        for sub in range(256):
+            for n in SWEEP_LENGTHS:
+                params = bytes([sub]) + rng.bytes(min(n, 254))
+                out.append(('le', sub, sub in le, bytes([4, 0x3E, len(params)]) + params))
+        for sub in range(256):
+            for n in SWEEP_LENGTHS:
+                params = bytes([sub]) + rng.bytes(min(n, 254))
+                claimed = any(sub == rsub and len(params) >= 2 and params[1] in ids for rsub, ids in rules)
+                out.append(('vendor', sub, claimed, bytes([4, 0xFF, len(params)]) + params))
+        out.append(('vendor', -1, False, bytes([4, 0xFF, 0])))
+        cands = [0x0000, 0x0001, 0x03FF, 0x0400, 0x0402, 0x07FF, 0x0800, 0x0BFF, 0x0C00, 0x0C02, 0x0FFF, 0x1000,
+                 0x13FF, 0x1400, 0x17FF, 0x1800, 0x1FFF, 0x2000, 0x20FF, 0x23FF, 0x2400, 0x3FFF, 0x4000, 0x7FFF,
+                 0x8000, 0xFBFF, 0xFC00, 0xFC02, 0xFC7F, 0xFCFF, 0xFD00, 0xFD52, 0xFDFF, 0xFE00, 0xFFFE, 0xFFFF]
+        cands += [rng.below(65536) for _ in range(12)]
+        for op in cands:
+            if op in ops:
+                continue
+            for n in SWEEP_LENGTHS:
+                params = rng.bytes(n)
+                out.append(('opcode', op, False, bytes([1]) + op.to_bytes(2, 'little') + bytes([len(params)]) + params))
+        for t in (0, 6, 7, 9, 0x80, 0xFF):
+            out.append(('type', t, False, bytes([t]) + rng.bytes(rng.choice([0, 1, 7]))))
+    return out
+
+
+def sweep_oracle(hci, kind, code, registered, p, b):
+    """implementation only.  Unregistered code: generic class of the right kind, same code,
+    parameters preserved byte for byte, same bytes back.  Registered code: the parser may
+    reject the random payload; if it accepts, the packet keeps its event code and (with a
+    non-empty parameter block) its bytes."""
+    what = f'{kind} code {code:#x}, packet {b.hex()[:60]}'
+    if kind == 'type':
+        if type(p) is not hci.HCI_CustomPacket or p.payload != b or bytes(p) != b:
+            return f'{what}: packet of unknown type is not carried as HCI_CustomPacket with its payload'
+        return None
+    if kind == 'opcode':
+        if p is None:
+            return f'{what}: unregistered opcode rejected'
+        if type(p) is not hci.HCI_Command or p.op_code != code or p.parameters != b[4:] or bytes(p) != b:
+            return (f'{what}: not carried as a generic HCI_Command with its parameters '
+                    f'(got {type(p).__name__}, re-serialised {bytes(p).hex()[:40]})')
+        return None
+    params = b[3:]
+    evcode = b[1]
+    if not registered:
+        want = {'event': hci.HCI_Event, 'le': hci.HCI_LE_Meta_Event, 'vendor': hci.HCI_Vendor_Event}[kind]
+        if p is None:
+            return f'{what}: unregistered code rejected'
+        try:
+            rb = bytes(p)
+        except Exception as e:
+            return f'{what}: re-serialisation raised {type(e).__name__}'
+        if type(p) is not want:
+            return (f'{what}: parsed as {type(p).__name__} (event_code {getattr(p, "event_code", None)!r}), expected a generic '
+                    f'{want.__name__}; re-serialised as {rb.hex()[:24]}')
+        if p.event_code != evcode or p.parameters != params or rb != b:
+            return f'{what}: code / parameters not preserved (re-serialised {rb.hex()[:40]})'
+        if kind == 'le' and p.subevent_code != code:
+            return f'{what}: sub-event code {p.subevent_code:#x}'
+        if kind == 'vendor' and p.data != params:
+            return f'{what}: data not preserved'
+        return None
+    if p is None:
+        return None
+    if getattr(p, 'event_code', None) != evcode:
+        return f'{what}: parsed as {type(p).__name__} with event_code {getattr(p, "event_code", None)!r}'
+    if params:
+        try:
+            rb = bytes(p)
+        except Exception as e:
+            return f'{what}: re-serialisation raised {type(e).__name__}'
+        if rb != b:
+            return f'{what}: re-serialised as {rb.hex()[:40]}'
     return None
 
 
@@ -1001,6 +1126,15 @@ def replay(ctx, obj):
             print('oracle:', 'holds' if b2 == b else 'VIOLATED: re-serialised bytes differ from the input')
         else:
             print('oracle: VIOLATED: well-formed packet rejected')
+        return 0
+    if r['kind'] == 'sweep':
+        b = bytes.fromhex(r['hex'])
+        p = impl_parse(hci, b)
+        print('from_bytes:', 'rejected' if p is None else f'{type(p).__name__} event_code={getattr(p, "event_code", None)!r}')
+        if p is not None:
+            print('bytes(from_bytes(b)):', (impl_bytes(p) or b'').hex())
+        bad = sweep_oracle(hci, r['code_kind'], r['code'], r['registered'], p, b)
+        print('oracle:', 'holds' if not bad else 'VIOLATED: ' + bad)
         return 0
     if r['kind'] == 'specfree':
         b = bytes.fromhex(r['hex'])
